@@ -44,7 +44,7 @@ def call_builtin(I, name, args, kwargs, fr):
             t = p.fresh_int('len')
             p.assume(t >= 0)
             return VInt(t)
-        if v is VNone and fr.spec:
+        if fr.spec and (v is VNone or isinstance(v, (VInt, VBool, VFloat))):
             return VInt(p.fresh_int('undef'))
         if v is VNone and not fr.spec:
             I.raise_builtin('TypeError', 'len of None')
